@@ -4,12 +4,16 @@
    unchanged; [btrun]: any history from the empty trie).  [mrun] is the reference map model
    with the refusal rule.  All statements hold for every history over non-empty keys
    ([bops_ok]) and every hash function H.  Only the property theorems.
-   Database level (store, hashes, old roots): tied by the correspondence check; "all earlier
-   roots remain readable" is checked by the harness on every case (the binary trie's store is
-   append-only by construction: its only write is db[keccak(node)] = node). *)
+   Database level (Binary/BinD.v: store, hashes, bin_set / bin_delete / bin_delete_subtrie): the
+   write refinement is proved (Binary/BinD_write.v) — see C12_D_history below: for every history
+   the root_hash is broot of the tree-level result (= bin_root of the contents for non-empty
+   keys), get/exists answer like the tree, a raising call leaves root and reads unchanged, and
+   every earlier root still reads its own contents from the final store.  Premise: no hash
+   collision among the node bodies written along the history ([hist_bodies], an executable list;
+   a machine-checked counterexample shows that intermediate nodes must be included). *)
 From Coq Require Import List NArith Bool.
 From PyTrie.Base Require Import Bytes Result AMap.
-From PyTrie.Binary Require Import BinEnc BinTree BinTree_proofs.
+From PyTrie.Binary Require Import BinEnc BinTree BinTree_proofs BinD BinD_proofs BinD_write.
 Import ListNotations.
 
 (* get/exists match the map model, for every lookup key incl. prefixes and extensions *)
@@ -76,3 +80,39 @@ Theorem C12_stored_keys_prefix_free : forall ops, bops_ok ops -> forall a b,
   obtget (btrun ops) a <> None -> obtget (btrun ops) b <> None -> is_bprefix a b -> a = b.
 Proof. exact btrun_prefix_free. Qed.
 Print Assumptions C12_stored_keys_prefix_free.
+
+(* ---------------- database level ---------------- *)
+Theorem C12_D_history : forall H BH, (forall x, length (H x) = 32%nat) -> BH = H [] ->
+  forall ops, cf H (hist_bodies H (map top_of ops)) ->
+  let T := btrun (map top_of ops) in let final := drun H BH ops in
+  b_root final = broot H T /\ orepr H (b_db final) T /\ ovalid T = true /\ ca H (b_db final) /\
+  incl (map snd (b_db final)) (hist_bodies H (map top_of ops)) /\
+  (forall key, bin_get BH final key = Ok (obtget T (encode_to_bin key))) /\
+  (forall key, bin_exists BH final key = Ok (match obtget T (encode_to_bin key) with Some _ => true | None => false end)) /\
+  (dops_ok ops -> ocanon T = true /\ b_root final = bin_root H (obtcontents T)) /\
+  (forall n, let Tn := btrun (map top_of (firstn n ops)) in let trn := drun H BH (firstn n ops) in
+     b_root trn = broot H Tn /\ grows (b_db trn) (b_db final) /\ orepr H (b_db final) Tn /\
+     forall key, bin_get BH (mkBtrie (b_db final) (b_root trn)) key = Ok (obtget Tn (encode_to_bin key))).
+Proof. exact BinD_write.C12_D_history. Qed.
+Print Assumptions C12_D_history.
+
+(* a call that raises leaves root and every read unchanged *)
+Theorem C12_D_raise : forall H BH, (forall x, length (H x) = 32%nat) -> BH = H [] ->
+  forall ops o e, cf H (hist_bodies H (map top_of (ops ++ [o]))) ->
+  fst (dstep H BH (drun H BH ops) o) = Err e ->
+  btrun (map top_of (ops ++ [o])) = btrun (map top_of ops) /\
+  b_root (drun H BH (ops ++ [o])) = b_root (drun H BH ops) /\
+  forall key, bin_get BH (drun H BH (ops ++ [o])) key = bin_get BH (drun H BH ops) key.
+Proof. exact BinD_write.C12_D_raise. Qed.
+Print Assumptions C12_D_raise.
+
+(* the store only grows, by entries keyed by the hash of their value, whatever the outcome *)
+Theorem C12_D_append_only : forall H BH fuel h k v ds db r db', _bset H BH fuel h k v ds db = (r, db') ->
+  (forall x b, aget db x = Some b -> aget db' x = Some b \/ exists b', aget db' x = Some b' /\ x = H b') /\
+  (forall x b, aget db' x = Some b -> aget db x = Some b \/ x = H b).
+Proof. exact BinD_write.bset_append_only. Qed.
+Print Assumptions C12_D_append_only.
+
+(* non-vacuity with the real Keccak-256: a 12-operation history (overwrite, two refused calls,
+   delete of an absent key, delete_subtrie, emptying) satisfies the no-collision premise *)
+Print Assumptions C12_D_example.
